@@ -611,6 +611,7 @@ impl<'a, 'b> GeneratorState<'a> {
         // Compare instruction
         let signed;
         let cmp;
+        let mut flags_describe_a = true;
         self.carry_flag_ok = false;
         match left {
             ExprType::Absolute(a, eight_bits, b) => {
@@ -658,6 +659,8 @@ impl<'a, 'b> GeneratorState<'a> {
                 cmp = true;
                 signed = *sign;
                 self.acc_in_use = false;
+                // After a function call N and Z are whatever the callee left
+                flags_describe_a = self.flags == FlagsState::A;
                 self.flags = FlagsState::A;
             }
             ExprType::Tmp(sign) => {
@@ -814,7 +817,7 @@ impl<'a, 'b> GeneratorState<'a> {
         if cmp {
             match right {
                 ExprType::Immediate(v) => {
-                    if *v != 0 {
+                    if *v != 0 || !flags_describe_a {
                         self.asm(CMP, right, pos, false)?;
                         self.flags = FlagsState::Unknown;
                     } else {
